@@ -180,9 +180,10 @@ def shard(ctx, si, payload):
         shared = np.vstack([rng.uniform(0, 1, 2048) for _ in range(4)])
         nodes0 = shared.copy()
         scan = [cfg, make_cfg(alt * 1.5, limb, cone, az), make_cfg(alt, limb, min(89.0, cone * 2), az), cfg]
+        gas = [RegionGeom(c2) for c2 in scan]  # all objects of the scan are built first, then used
         for j, c2 in enumerate(scan):
             try:
-                ga, gb = RegionGeom(c2), RegionGeom(c2)
+                ga, gb = gas[j], RegionGeom(c2)
                 ga.throw(shared)
                 gb.throw(nodes0.copy())
                 na, nb = int(np.sum(ga.event_mask)), int(np.sum(gb.event_mask))
@@ -193,7 +194,7 @@ def shard(ctx, si, payload):
                 break
             ctx.count("shared-grid")
             if not (na == nb and ea_ == eb_ and np.array_equal(np.asarray(ga.losPathLen), np.asarray(gb.losPathLen))):
-                ctx.violation("shared-grid", f"altitude {alt} km: step {j} of a scan that re-uses one array of nodes: geometry-only integral {ea_!r} from the shared array, {eb_!r} from a private copy of the same nodes ({na} vs {nb} events kept; node array {'changed' if shared.tobytes() != nodes0.tobytes() else 'unchanged'})", dict(wit, step=j))
+                ctx.violation("shared-grid", f"altitude {alt} km: step {j} of a scan (objects built first, one array of nodes re-used): geometry-only integral {ea_!r} from the scan's object and the shared array, {eb_!r} from an object built on the spot and a private copy of the same nodes ({na} vs {nb} events kept; node array {'changed' if shared.tobytes() != nodes0.tobytes() else 'unchanged'})", dict(wit, step=j))
                 break
         # ---- quadrature against the independent aperture
         if payload["sobol_m"] and k < payload["nquad"]:
